@@ -332,7 +332,21 @@ namespace sqf::runtime
                         // Lookup inherited node and replace it
                         auto nav = lookup_in_logical(inherited);
 
-                        replaced.id_parent_inherited = nav.m_index;
+                        // A class must never (transitively) inherit from itself,
+                        // the former parent is kept in that case.
+                        bool cyclic = false;
+                        for (size_t index = nav.m_index; index != config::invalid_id; index = m_confighost.m_containers.at(index).id_parent_inherited)
+                        {
+                            if (index == replaced.id)
+                            {
+                                cyclic = true;
+                                break;
+                            }
+                        }
+                        if (!cyclic)
+                        {
+                            replaced.id_parent_inherited = nav.m_index;
+                        }
                     }
 
                     // Return found container as confignav
